@@ -395,7 +395,7 @@ func main() {
 		nDed := o.Count(200, 6000)
 		nWorld := o.Count(60, 2000)
 		if o.Search {
-			nDed, nWorld = o.Count(800, 12000), o.Count(150, 3000)
+			nDed, nWorld = o.Count(800, 2500), o.Count(150, 500)
 		}
 		for i := 0; i < nDed; i++ {
 			op, h := c07.GenHistory(rng, 1+rng.Intn(4))
@@ -412,7 +412,7 @@ func main() {
 		}
 		nSplit := o.Count(40, 1500)
 		if o.Search {
-			nSplit = o.Count(300, 3000)
+			nSplit = o.Count(300, 1000)
 		}
 		for i := 0; i < nSplit; i++ {
 			op, h := c07.GenSplitTLS(rng)
@@ -420,7 +420,7 @@ func main() {
 		}
 		nChurn := o.Count(120, 4000)
 		if o.Search {
-			nChurn = o.Count(300, 8000)
+			nChurn = o.Count(300, 1000)
 		}
 		for i := 0; i < nChurn; i++ {
 			op, h := c07.GenChurn(rng, 3+rng.Intn(6))
